@@ -85,7 +85,11 @@ def run(ctx):
               "BytesArray parsing is not trim('[').trim(']').split(','): %s" % [e[:60] for e in evb[:4]], where(g))
     ctx.check("C19-R3", "DottedHex parser: split ':'", any(re.match(r"^<impl str>::split\(.*,58\)$", e) for e in evd), "DottedHex parsing does not split on ':'", where(g))
     # the parser family: from_str_fmt with its closures and nested helper functions (whatever they are called)
-    FN = [x for x in A.fn_list if x.body and x.path.startswith(T + "Sha256Digest::from_str_fmt")]
+    import rules.C11 as c11
+    import pathwalk
+    voc = pathwalk.vocab()
+    clo = c11.closure_of(A, [g])
+    FN = [x for p_, x in sorted(clo.items()) if x.body and (x.path.startswith(T + "Sha256Digest::from_str_fmt") or (voc and x.path not in voc and x.crate == "wtransport"))]
     calls = []
     for x in FN:
         for p in walk(x):
